@@ -18,6 +18,7 @@ import (
 	"io"
 	"os"
 	"runtime/debug"
+	"sync/atomic"
 	"testing"
 	"testing/synctest"
 
@@ -42,7 +43,7 @@ const (
 	maxOpens    = 4 // per share bit
 	maxHolders  = 3 // uploads + frozen readers in flight
 	maxPending  = 3 // blocked mutating calls
-	ruleText    = "rapid state machine over ONE pool-backed file per case (real NewPoolBackedFileAllocator over an instrumented in-memory pool file; leaf raw or behind the FUSE / NFS stateful handle allocator, drawn per case), run inside testing/synctest: every call is a goroutine, synctest.Wait after every action. Actions: open(R/W/RW, with/without truncate), close(mask), link, unlink, read, write, set-size, chmod, allocate, seek, getattr, upload (fake CAS whose Put returns at once / parks before, halfway or after reading / fails; delay channel closed or open; 3 digest functions), open-frozen + frozen reads + close, close-delay-channel, release-parked-Put, BazelOutputService stat, persistency node, one-shot pool I/O faults; final drain in a drawn order and probes of the dead file. Oracle: reference model (links + opened share bits + frozen readers/uploads; byte content): pool file closed exactly once and exactly when the model count is 0 and never touched afterwards; contents == model while referenced; dead file: link/open -> ESTALE, upload/open-frozen/stat -> NOT_FOUND; successful upload digest == digest-function(bytes the fake CAS read) == model content at the freeze instant; mutating calls block while any upload/frozen reader holds the file and take effect afterwards (any order of the blocked calls accepted); upload blocks while a writable descriptor is open until it is closed or the delay channel closes; lock free and hook counters == model at every quiescence. NON-TRIVIAL: an upload/frozen-open was in progress while a writable descriptor was open, or the last reference to disappear was an upload / frozen reader. Distinct by script hash"
+	ruleText    = "rapid state machine over ONE pool-backed file per case (real NewPoolBackedFileAllocator over an instrumented in-memory pool file; leaf raw or behind the FUSE / NFS stateful handle allocator, drawn per case), run inside testing/synctest: every call is a goroutine, synctest.Wait after every action. Actions: open(R/W/RW, with/without truncate), close(mask), link, unlink, read, write, set-size, chmod, allocate, seek, getattr, upload (fake CAS whose Put returns at once / parks before, halfway or after reading / fails; delay channel closed or open; 3 digest functions), open-frozen + frozen reads + close, close-delay-channel, release-parked-Put, BazelOutputService stat, persistency node, one-shot pool I/O faults, redigest macro (digest request, ONE change of a drawn class: write / short write with error / truncate-shrink / truncate-grow / set-size to the same size / allocate growing / allocate inside / truncating open / chmod, digest request with the same digest function; labels redigest_[samefn_]after_<class> count every class of change seen between two checked digest requests); final drain in a drawn order and probes of the dead file. Oracle: reference model (links + opened share bits + frozen readers/uploads; byte content): pool file closed exactly once and exactly when the model count is 0 and never touched afterwards; contents == model while referenced; dead file: link/open -> ESTALE, upload/open-frozen/stat -> NOT_FOUND; successful upload digest == digest-function(bytes the fake CAS read) == model content at the freeze instant; mutating calls block while any upload/frozen reader holds the file and take effect afterwards (any order of the blocked calls accepted); upload blocks while a writable descriptor is open until it is closed or the delay channel closes; lock free and hook counters == model at every quiescence; no WriteAt/Truncate on the pool file between the instant a holder is known to be frozen (open-frozen returned / CAS Put entered) and the instant its unfreeze is started (event stamps); the code's upload-delay timeouts counter grows exactly by the freezes that the model attributes to a closed delay channel with writers present. NON-TRIVIAL: an upload/frozen-open was in progress while a writable descriptor was open, or the last reference to disappear was an upload / frozen reader. Distinct by script hash"
 	statOK      = virtual.StatusOK
 	shareRead   = virtual.ShareMaskRead
 	shareWrite  = virtual.ShareMaskWrite
@@ -50,18 +51,18 @@ const (
 	holderLimit = maxHolders
 )
 
-// probeUnreferenced enables the opt-in probes of set-size on a file whose
-// last reference is gone (finding F1 of this package: fileBackedFile.
-// virtualTruncate dereferences the nil f.file when referenceCount is already
-// 0; reachable through FUSE SETATTR racing with unlink; proposed fix: return
-// StatusErrStale from virtualTruncate when referenceCount == 0). Off by
-// default: the code documents a result on a dead file only for link/open
-// (ESTALE) and upload/open-frozen/stat (NOT_FOUND), so the default generator
-// refuses set-size there and counts the refusals. With the flag on, (a) the
-// action setsize_unreferenced is generated and must return a non-OK status
-// without panicking, (b) the last link/descriptor may be dropped while a
-// set-size is blocked behind an upload; that set-size must then fail cleanly.
-// Use it only together with VERIF_REPO=<scratch tree>.
+// probeUnreferenced enables the probes of set-size on a file whose last
+// reference is gone (finding F1 of this package: fileBackedFile.
+// virtualTruncate dereferenced the nil f.file when referenceCount was already
+// 0; reachable through FUSE SETATTR racing with unlink; fixed in the pinned
+// tree: virtualTruncate now returns StatusErrStale when referenceCount == 0
+// and says so in a comment). ON by default since that fix; the environment
+// variable VERIF_C16_UNREFERENCED_SETSIZE=0 switches the probes off (then the
+// generator refuses set-size on a dead file and counts the refusals). With
+// the probes on, (a) the action setsize_unreferenced is generated and must
+// return a non-OK status without panicking or touching the pool file, (b) the
+// last link/descriptor may be dropped while a set-size is blocked behind an
+// upload; that set-size must then fail cleanly.
 var probeUnreferenced = os.Getenv("VERIF_C16_UNREFERENCED_SETSIZE") != "0"
 
 // failure is the panic value used to carry an oracle failure out of the
@@ -135,6 +136,25 @@ type holder struct {
 	faultHit    bool
 	notFound    bool
 	checked     bool
+
+	// Frozen readers only: event stamps taken right after the open-frozen
+	// call returned a reader, and right before the harness starts closing
+	// it (0 = not yet). Uploads use the stamps of their fake CAS.
+	fromSeq  atomic.Int64
+	untilSeq atomic.Int64
+}
+
+// knownFrozen returns the interval of event stamps during which this holder
+// is KNOWN to have held the file frozen: from is taken after the freeze
+// happened, until (0 = still holding) before the unfreeze was started.
+func (h *holder) knownFrozen() (from, until int64) {
+	if h.kind == "frozen" {
+		return h.fromSeq.Load(), h.untilSeq.Load()
+	}
+	if h.cas == nil {
+		return 0, 0
+	}
+	return h.cas.stamps()
 }
 
 // shared is what all file models of one case have in common.
@@ -146,6 +166,14 @@ type shared struct {
 	nextID int
 	wrap   string
 	fns    []digest.Function
+
+	// clock stamps pool-file mutations and freeze/unfreeze events.
+	clock *atomic.Int64
+	// wantTimeouts counts the freezes the model attributes to the delay
+	// channel having been closed while writers were still present;
+	// compared with the code's own "upload delay timeouts" counter.
+	wantTimeouts int
+	metricsBase  metricsSnapshot
 }
 
 // sim is the model of ONE file plus the machinery to drive it.
@@ -172,6 +200,75 @@ type sim struct {
 
 	digestSeen         bool // some digest was computed for the current or an earlier content
 	changedSinceDigest bool
+	// Classes of changes applied since the last CHECKED digest request
+	// (successful upload or stat with digest) and the digest function of
+	// that request: only used for the redigest_* labels.
+	sinceDigest  map[string]bool
+	lastDigestFn int // 1 + index, 0 = none yet
+
+	mutChecked int       // pool-file mutation events already judged
+	gate       *attrGate // nil: default attributes setter never parks
+	orphans    []*holder // started by a handover action, not yet in holders
+	handover   bool      // handover sub-check: extra actions and CAS plans
+}
+
+// noteChange records that a change of the given class went through since
+// the last checked digest request.
+func (s *sim) noteChange(class string) {
+	if !s.digestSeen {
+		return
+	}
+	if s.sinceDigest == nil {
+		s.sinceDigest = map[string]bool{}
+	}
+	s.sinceDigest[class] = true
+}
+
+// noteDigestChecked is called when a digest request whose answer the oracle
+// compares with the content (successful upload, stat with digest) froze the
+// file: one label per class of change since the previous such request.
+func (s *sim) noteDigestChecked(fnIdx int) {
+	classes := make([]string, 0, len(s.sinceDigest))
+	for c := range s.sinceDigest {
+		classes = append(classes, c)
+	}
+	sortStrings(classes)
+	for _, c := range classes {
+		s.label("redigest_after_" + c)
+		if s.lastDigestFn == fnIdx+1 {
+			s.label("redigest_samefn_after_" + c)
+		}
+	}
+	s.sinceDigest = nil
+	s.lastDigestFn = fnIdx + 1
+}
+
+// changeClass names the class of a mutating call relative to the content it
+// is applied to.
+func changeClass(content []byte, m *mutator) string {
+	switch m.kind {
+	case "write":
+		return "write"
+	case "setsize":
+		switch {
+		case m.size < len(content):
+			return "truncate_shrink"
+		case m.size > len(content):
+			return "truncate_grow"
+		}
+		return "setsize_same"
+	case "allocate":
+		if m.off+m.size > len(content) {
+			return "allocate_grow"
+		}
+		return "allocate_noop"
+	case "opentrunc":
+		if len(content) > 0 {
+			return "opentrunc"
+		}
+		return "opentrunc_empty"
+	}
+	return m.kind
 }
 
 func (s *sim) failf(format string, a ...any) {
@@ -308,6 +405,9 @@ func (s *sim) afterFreeze(h *holder) {
 		s.label("upload_after_change")
 		s.changedSinceDigest = false
 	}
+	if !h.faultHit && !h.plan.Fail {
+		s.noteDigestChecked(h.fnIdx)
+	}
 	if h.faultHit {
 		s.frozen--
 		h.state = hDone
@@ -319,7 +419,7 @@ func (s *sim) afterFreeze(h *holder) {
 		s.frozen--
 		h.state = hDone
 		s.dropped("upload")
-	case "before", "mid":
+	case "before", "mid", "preclose":
 		h.state = hFrozenParked
 	case "after":
 		s.frozen--
@@ -344,6 +444,7 @@ func (s *sim) advance() {
 			if s.openW == 0 || h.delayClosed {
 				if s.openW > 0 {
 					s.label("upload_delay_timeout")
+					s.wantTimeouts++
 				} else if h.applied {
 					s.label("upload_waited_for_writer_close")
 				}
@@ -601,6 +702,9 @@ func (s *sim) resolvePending() {
 	if !bytes.Equal(actual, s.content) || len(live) > 0 {
 		s.changedSinceDigest = s.digestSeen
 	}
+	for _, m := range live {
+		s.noteChange(changeClass(s.content, m))
+	}
 	s.content = actual
 	for _, m := range live {
 		if m.kind == "opentrunc" {
@@ -623,7 +727,47 @@ func (s *sim) acquire(share virtual.ShareMask) {
 // Invariants checked at every quiescent point.
 // ---------------------------------------------------------------------
 
+// checkFrozenIntervals: no WriteAt/Truncate may reach the pool file while a
+// frozen reader or an upload is KNOWN to hold the file frozen (documented:
+// "The file's contents are guaranteed to be immutable as long as the file is
+// kept open", ApplyOpenReadFrozen; lockMutatingData "waits for any pending
+// uploads of the file to complete"). Known = after the open-frozen call
+// returned / the CAS Put was entered, and before the harness started closing
+// the reader / the fake CAS started closing the buffer. Event stamps come
+// from one atomic counter, so the verdict does not depend on the schedule.
+func (s *sim) checkFrozenIntervals() {
+	if s.clock == nil {
+		return
+	}
+	evs := s.pf.mutationsSince(s.mutChecked)
+	s.mutChecked += len(evs)
+	for _, ev := range evs {
+		for _, h := range s.holders {
+			from, until := h.knownFrozen()
+			if from != 0 && from < ev.seq && (until == 0 || ev.seq < until) {
+				s.failf("pool file %s (event %d) ran while %s#%d held the file frozen (frozen since event %d, until %d; 0 = still held): contents changed under a frozen holder", ev.op, ev.seq, h.kind, h.id, from, until)
+			}
+		}
+	}
+}
+
+// checkTimeouts compares the code's own count of "gave up waiting for
+// writers because the delay expired" with the model: every freeze that
+// happens while a writable descriptor is open must be due to a closed delay
+// channel, and vice versa.
+func (s *sim) checkTimeouts() {
+	if !s.metricsBase.known {
+		return
+	}
+	now := readMetrics(false)
+	if got := int(now.timeouts - s.metricsBase.timeouts); got != s.wantTimeouts {
+		s.failf("the file's code counted %d upload(s)/frozen open(s) that stopped waiting for writers with a writable descriptor still open (writable_file_upload_delay_timeouts), the model knows %d whose delay channel was closed at that point: an upload went ahead although a writer was open and its delay had not expired (or the reverse)", got, s.wantTimeouts)
+	}
+}
+
 func (s *sim) check() {
+	s.checkFrozenIntervals()
+	s.checkTimeouts()
 	if free, known := virtual.VerifLeafLockIsFree(s.leaf); !known {
 		s.failf("hook does not know the leaf type %T", s.leaf)
 	} else if !free {
@@ -815,6 +959,11 @@ func (s *sim) issue(m *mutator, fault string, faultK int) {
 				part.data = m.data[:k]
 				s.content = applyMutator(s.content, &part)
 				s.changedSinceDigest = s.digestSeen
+				if k < len(m.data) {
+					s.noteChange("write_partial")
+				} else {
+					s.noteChange("write")
+				}
 			}
 		}
 		s.setRes("eio n=%d", m.n)
@@ -829,6 +978,7 @@ func (s *sim) issue(m *mutator, fault string, faultK int) {
 	} else {
 		s.checkMutatorResult(m)
 	}
+	s.noteChange(changeClass(s.content, m))
 	s.content = applyMutator(s.content, m)
 	s.changedSinceDigest = s.digestSeen
 	s.setRes("ok")
@@ -901,6 +1051,7 @@ func (s *sim) doUpload(plan casPlan, preClosed bool, fnIdx int, fault bool) *hol
 // h.up.Digest and h.up.Err.
 func (s *sim) doUploadVia(plan casPlan, preClosed bool, fnIdx int, fault bool, start func(h *holder)) *holder {
 	h := &holder{id: s.nextID, kind: "upload", plan: plan, fnIdx: fnIdx, delay: make(chan struct{}), cas: newFakeCAS(plan)}
+	h.cas.clock = s.clock
 	s.nextID++
 	if preClosed {
 		close(h.delay)
@@ -957,16 +1108,23 @@ func (s *sim) doOpenFrozen(preClosed bool) *holder {
 	}
 	s.add(step{Op: "openfrozen", ID: h.id, S: fmt.Sprintf("delayClosed=%v", preClosed)})
 	h.fr = &virtual.ApplyOpenReadFrozen{WritableFileDelay: h.delay}
-	h.call = s.spawn(func() {
-		if !s.leaf.VirtualApply(h.fr) {
-			panic("VirtualApply(ApplyOpenReadFrozen) not handled")
-		}
-	})
+	h.call = s.spawn(func() { s.applyOpenFrozen(h) })
 	synctest.Wait()
 	s.holders = append(s.holders, h)
 	s.advance()
 	s.setHolderRes(h)
 	return h
+}
+
+// applyOpenFrozen is the body of an open-frozen call; it stamps the instant
+// from which the reader is known to hold the file frozen.
+func (s *sim) applyOpenFrozen(h *holder) {
+	if !s.leaf.VirtualApply(h.fr) {
+		panic("VirtualApply(ApplyOpenReadFrozen) not handled")
+	}
+	if h.fr.Reader != nil && s.clock != nil {
+		h.fromSeq.Store(s.clock.Add(1))
+	}
 }
 
 func (s *sim) doCloseDelay(h *holder) {
@@ -1053,6 +1211,9 @@ func (s *sim) doFrozenRead(h *holder, off, n int, fault bool) {
 func (s *sim) doFrozenClose(h *holder) {
 	s.add(step{Op: "frozenclose", ID: h.id})
 	var err error
+	if s.clock != nil {
+		h.untilSeq.Store(s.clock.Add(1))
+	}
 	s.sync("frozen Close", func() { err = h.fr.Reader.Close() })
 	if err != nil {
 		s.failf("frozen#%d Close returned %v", h.id, err)
@@ -1146,6 +1307,7 @@ func (s *sim) doChmod(exec bool) {
 	if sz, ok := out.GetSizeBytes(); !ok || sz != uint64(len(s.content)) {
 		s.failf("chmod reported size %d, model size %d", sz, len(s.content))
 	}
+	s.noteChange("chmod")
 	s.advance()
 }
 
@@ -1207,6 +1369,7 @@ func (s *sim) doStat(fnIdx int, fault bool) {
 				s.label("stat_after_change")
 				s.changedSinceDigest = false
 			}
+			s.noteDigestChecked(fnIdx)
 			s.setRes("digest")
 		}
 	}
@@ -1294,8 +1457,12 @@ func (s *sim) actions() map[string]func(*rapid.T) {
 		if s.inFlightHolders() >= holderLimit {
 			rt.Skip()
 		}
+		parks := []string{"none", "before", "mid", "after", "before", "mid"}
+		if s.handover {
+			parks = append(parks, "preclose")
+		}
 		plan := casPlan{
-			Park: rapid.SampledFrom([]string{"none", "before", "mid", "after", "before", "mid"}).Draw(rt, "park"),
+			Park: rapid.SampledFrom(parks).Draw(rt, "park"),
 			Fail: rapid.IntRange(0, 7).Draw(rt, "casfail") == 0,
 		}
 		pre := rapid.IntRange(0, 3).Draw(rt, "delayClosed") == 0
@@ -1325,7 +1492,7 @@ func (s *sim) actions() map[string]func(*rapid.T) {
 		h := c[rapid.IntRange(0, len(c)-1).Draw(rt, "which")]
 		s.doRelease(h, h.state == hFrozenParked && drawFault(rt))
 	}
-	return map[string]func(*rapid.T){
+	acts := map[string]func(*rapid.T){
 		"open":  open,
 		"open2": open,
 		"opentrunc": func(rt *rapid.T) {
@@ -1388,10 +1555,9 @@ func (s *sim) actions() map[string]func(*rapid.T) {
 			}
 			s.issue(m, fault, 0)
 		},
-		// Opt-in probe (VERIF_C16_UNREFERENCED_SETSIZE=1), see probeUnreferenced:
-		// set-size on a file whose last reference is gone. Not part of
-		// the default generator because no documentation promises a
-		// result for it.
+		// Probe (on unless VERIF_C16_UNREFERENCED_SETSIZE=0), see
+		// probeUnreferenced: set-size on a file whose last reference is
+		// gone must fail cleanly (virtualTruncate documents ESTALE).
 		"setsize_unreferenced": func(rt *rapid.T) {
 			if !s.dead || !probeUnreferenced {
 				rt.Skip()
@@ -1483,6 +1649,16 @@ func (s *sim) actions() map[string]func(*rapid.T) {
 		},
 		"": func(rt *rapid.T) { s.check() },
 	}
+	acts["redigest"] = s.redigestAction
+	if s.handover {
+		for _, k := range []string{"handover_unfreeze", "handover_unfreeze2", "handover_unfreeze3"} {
+			acts[k] = s.handoverUnfreezeAction
+		}
+		for _, k := range []string{"handover_writer", "handover_writer2", "handover_writer3"} {
+			acts[k] = s.handoverWriterAction
+		}
+	}
+	return acts
 }
 
 // drain drops every remaining reference in a drawn order and then probes
@@ -1558,7 +1734,7 @@ func (s *sim) drain(rt *rapid.T) {
 }
 
 func newShared(rt *rapid.T, rec *simkit.Recorder) *shared {
-	return &shared{rt: rt, rec: rec, labels: map[string]bool{}, fns: []digest.Function{
+	return &shared{rt: rt, rec: rec, labels: map[string]bool{}, clock: &atomic.Int64{}, fns: []digest.Function{
 		digest.MustNewFunction("main", remoteexecution.DigestFunction_SHA256),
 		digest.MustNewFunction("other", remoteexecution.DigestFunction_SHA256),
 		digest.MustNewFunction("main", remoteexecution.DigestFunction_MD5),
@@ -1571,12 +1747,14 @@ func newSim(rt *rapid.T, rec *simkit.Recorder) *sim {
 	size := rapid.OneOf(rapid.Just(0), rapid.IntRange(0, 8)).Draw(rt, "initialSize")
 	share := rapid.SampledFrom([]virtual.ShareMask{0, shareRead, shareWrite, shareRW, shareWrite}).Draw(rt, "initialShare")
 	exec := rapid.Bool().Draw(rt, "executable")
-	fp := &fakePool{}
+	fp := &fakePool{clock: s.clock}
 	s.na = &fakeNamedAttributes{}
 	s.el = &fakeErrorLogger{}
+	s.gate = &attrGate{}
 	// Same composition as virtualBuildDirectory.InstallHooks: the
 	// pool-backed allocator behind NewHandleAllocatingFileAllocator.
-	fa := virtual.NewPoolBackedFileAllocator(fp, s.el, func(requested virtual.AttributesMask, attributes *virtual.Attributes) {}, &fakeNamedAttributesFactory{na: s.na})
+	fa := virtual.NewPoolBackedFileAllocator(fp, s.el, s.gate.setter, &fakeNamedAttributesFactory{na: s.na})
+	s.metricsBase = readMetrics(false)
 	switch s.wrap {
 	case "fuse":
 		fa = virtual.NewHandleAllocatingFileAllocator(fa, virtual.NewFUSEHandleAllocator(&counterGenerator{}))
@@ -1600,7 +1778,10 @@ func newSim(rt *rapid.T, rec *simkit.Recorder) *sim {
 // cleanup unblocks everything the harness itself parked, so that a failed
 // case does not leave goroutines behind in the bubble.
 func (s *sim) cleanup() {
-	for _, h := range s.holders {
+	if s.gate != nil {
+		s.gate.releaseParked()
+	}
+	for _, h := range append(append([]*holder(nil), s.holders...), s.orphans...) {
 		if !h.delayClosed {
 			h.delayClosed = true
 			close(h.delay)
@@ -1614,6 +1795,9 @@ func (s *sim) cleanup() {
 		}
 		if h.kind == "frozen" && h.state == hOpen && h.fr.Reader != nil {
 			r := h.fr.Reader
+			if s.clock != nil && h.untilSeq.Load() == 0 {
+				h.untilSeq.Store(s.clock.Add(1))
+			}
 			go func() {
 				defer func() { recover() }()
 				r.Close()
